@@ -36,7 +36,7 @@ REPORT_COUNTERS = ["histories_ovld", "histories_ovld_linkback_child", "histories
 
 
 def plan(tier):
-    n = 1600 if tier == "quick" else 32000
+    n = 2400 if tier == "quick" else 32000
     return {"cases": n, "params": {}, "timeout_s": 1200 if tier == "quick" else 7200,
             "min": {"probe_comparisons": 30_000, "rereg_ops": 500, "unreg_ops": 500,
                     "mutation_after_failing_probe": 200, "histories_mtm": 200}}
@@ -55,7 +55,7 @@ def gen_case(rng, params, idx):
     npos = rng.choice([1, 1, 2])
     # classes as arguments: type[...] methods come and go (the entry point then changes how it looks arguments up),
     # next to a method on the *metaclass* of some of the classes passed
-    types_as_args = target != "mtm" and rng.random() < 0.25
+    types_as_args = target != "mtm" and rng.random() < 0.4
     if types_as_args:
         pool = pool + [["Ty", "int"], ["Ty", rng.choice([s["name"] for s in hier])], ["Ty", "Shape"], "ABCMeta", "ABCMeta"]
     # a *sibling* linkback copy with a method of its own whose first parameter is called c1: registering on the parent
